@@ -86,6 +86,9 @@ class Context:
     def fail(self, rule: str, key: str, message: str, f: FuncInfo | None = None,
              node: ast.AST | None = None, path: list[str] | None = None) -> None:
         import os
+        if "`?`" in message:
+            # the rule could not find the construct it reports on (the `?` stands for what it looked for): that is a reading failure, not a finding
+            raise AnalysisError(f"rule {rule} could not read the construct at {key}: {message[:160]}")
         if os.environ.get("SA_NEW_CALLEE_GATE", "1") != "0" and f is not None and rule.startswith(FORMULA_RULES):
             nc = (getattr(self.prog, "alignment", None) or {}).get("new_callees", {}).get(f.qualname)
             if nc:
